@@ -249,7 +249,12 @@ func (d *Document) PrintValue(value Value, w io.Writer) (err error) {
 			_, err = w.Write(literal.QUOTE)
 			_, err = w.Write(literal.QUOTE)
 		}
-		_, err = w.Write(d.Input.ByteSlice(d.StringValues[value.Ref].Content))
+		content := d.Input.ByteSlice(d.StringValues[value.Ref].Content)
+		_, err = w.Write(content)
+		if isBlockString && bytes.HasSuffix(content, literal.QUOTE) && !bytes.HasSuffix(content, []byte(`\"""`)) {
+			// a block string whose content ends with a quote needs a line break before the closing quotes
+			_, err = w.Write(literal.LINETERMINATOR)
+		}
 		_, err = w.Write(literal.QUOTE)
 		if isBlockString {
 			_, err = w.Write(literal.QUOTE)
